@@ -84,14 +84,68 @@ def check_oneshot(res, bt, kind, codec, e, tailkind, t):
         res.see('oneshot-ok')
 
 
-def check_stream(res, T, schema, codec, items):
-    """items: list of (value, bytes).  Positions observed on io.BytesIO."""
+class PlainSeekable(object):
+    """A seekable binary stream that is not an io.BytesIO (the decoder then probes for end of stream by reading)."""
+
+    def __init__(self, data):
+        self._b = io.BytesIO(data)
+
+    def read(self, n=-1):
+        return self._b.read(n)
+
+    def seek(self, off, whence=0):
+        return self._b.seek(off, whence)
+
+    def tell(self):
+        return self._b.tell()
+
+    def seekable(self):
+        return True
+
+    def readable(self):
+        return True
+
+
+STREAM_KINDS = ('file', 'file-unbuffered', 'plain-seekable', 'raw-nonseekable')
+
+
+def check_stream(res, T, schema, codec, items, kind='bytesio'):
+    """items: list of (value, bytes).  One object per encoding on every kind of stream; the position after each
+    object is observed on the seekable kinds (io.BytesIO, a real file buffered and unbuffered, a plain seekable
+    class); the non-seekable kind sits behind pyasn1's caching wrapper, whose tell() is not a stream position."""
     data = b''.join(e for _, e in items)
-    case = ('c07-stream', T, codec, [e.hex() for _, e in items], [v for v, _ in items])
-    feats = U.type_features(T) | {'stream-len:%d' % len(items)}
-    res.case(U.case_hash(codec, data), len(items) > 1)
+    case = ('c07-stream', T, codec, [e.hex() for _, e in items], [v for v, _ in items], kind)
+    feats = U.type_features(T) | {'stream-len:%d' % len(items), 'stream-kind:' + kind}
+    res.case(U.case_hash(codec, data, kind), len(items) > 1)
     res.see('streams:n=%d' % len(items))
-    stream = io.BytesIO(data)
+    res.see('stream-kind:' + kind)
+    tmp = None
+    positions = True
+    if kind == 'bytesio':
+        stream = io.BytesIO(data)
+    elif kind in ('file', 'file-unbuffered'):
+        import tempfile
+        tmp = tempfile.NamedTemporaryFile(prefix='pyasn1-verif-c07-', delete=True)
+        tmp.write(data)
+        tmp.flush()
+        stream = open(tmp.name, 'rb', **({'buffering': 0} if kind == 'file-unbuffered' else {}))
+    elif kind == 'plain-seekable':
+        stream = PlainSeekable(data)
+    else:
+        from .. import streams as S
+        stream = S.RawSched(data)
+        stream.gate.arrive(len(data))
+        stream.gate.close()
+        positions = False
+    try:
+        _check_stream(res, T, schema, codec, items, stream, positions, case, feats)
+    finally:
+        if tmp is not None:
+            stream.close()
+            tmp.close()
+
+
+def _check_stream(res, T, schema, codec, items, stream, positions, case, feats):
     ends = []
     pos = 0
     for _, e in items:
@@ -106,12 +160,13 @@ def check_stream(res, T, schema, codec, items):
             if n >= len(items):
                 res.witness('stream:extra-object', feats, case, repr(obj)[:200])
                 return
-            tell = stream.tell()
-            res.see('positions-checked')
-            if tell != ends[n]:
-                res.witness('stream:position-after-object', feats, case,
-                            'object %d: tell=%d, encoding ends at %d' % (n, tell, ends[n]))
-                return
+            if positions:
+                tell = stream.tell()
+                res.see('positions-checked')
+                if tell != ends[n]:
+                    res.witness('stream:position-after-object', feats, case,
+                                'object %d: tell=%d, encoding ends at %d' % (n, tell, ends[n]))
+                    return
             try:
                 a = B.absval(obj, T)
             except B.NotAValue as ex:
@@ -165,6 +220,9 @@ def run_shard(shard, tier, seed):
                     items.append((vj, rng.choice(cand)[2]))
             if items:
                 check_stream(res, T, bt.schema, codec, items)
+                if sum(len(e) for _, e in items) <= 8000:
+                    # (beyond the read-ahead buffer the non-seekable kind is in the zone of C11's pinned wrapper finding)
+                    check_stream(res, T, bt.schema, codec, items, rng.choice(STREAM_KINDS))
             if len(res.samples) < 4:
                 res.sample(C.sample_of(T, v, stream=[e.hex()[:80] for _, e in items], codec=codec))
         except Exception:
@@ -182,8 +240,9 @@ def replay(case):
         if bt is not None:
             check_oneshot(res, bt, 'replay', codec, bytes.fromhex(eh), 'replay', bytes.fromhex(th))
     elif case[0] == 'c07-stream':
-        _, T, codec, hexes, values = case
-        check_stream(res, T, B.schema(T), codec, [(v, bytes.fromhex(h)) for v, h in zip(values, hexes)])
+        _, T, codec, hexes, values = case[:5]
+        check_stream(res, T, B.schema(T), codec, [(v, bytes.fromhex(h)) for v, h in zip(values, hexes)],
+                     case[5] if len(case) > 5 else 'bytesio')
     elif case[0] == 'enc':
         return C.replay_enc(ID, case)
     return res
